@@ -9,7 +9,7 @@ for id in "${ids[@]}"; do
   out=""
   for chk in $prop ${EXTRA[$id]:-}; do
     r=$(timeout 1500 tools/trymutant.sh seeded/$id/patch.diff $chk quick 2>&1)
-    code=$(echo "$r" | grep -o "exit=[0-9]*" | tail -1)
+    code=$(echo "$r" | grep -o "exit=[0-9]*" | tail -1); echo "$r" | grep -q "patch does not apply" && code="exit=9(patch-does-not-apply)"
     keys=$(echo "$r" | grep "^  key:" | head -3 | sed 's/^  key: //' | cut -c1-160 | paste -sd';')
     out="$out$chk $code $keys\n"
   done
